@@ -96,6 +96,44 @@ theorem c04_msg_queue_exact {β : Type} (xs : List β) (rest : List (QItem β)) 
     | nil => simp [msgQueueLoop]
     | cons x xs ih => simp [msgQueueLoop, ih]
 
+theorem msgQueueLoop_items_append {β : Type} (xs : List β) (rest : List (QItem β)) :
+    msgQueueLoop (xs.map .item ++ rest) = (xs ++ (msgQueueLoop rest).1, (msgQueueLoop rest).2) := by
+  induction xs with
+  | nil => simp
+  | cons x xs ih => simp [msgQueueLoop, ih]
+
+/-- **websocket messages, exact.** With no failure of the iteration, the receiver dispatches, in
+order, exactly what each non-empty binary message parses to; text / ping / other messages and empty
+binary messages contribute nothing and disturb nothing. -/
+theorem c04_ws_messages_exact {β : Type} (qf : Bool) (parse : Bytes → List β) (msgs : List WsMsg)
+    (hnf : WsMsg.fail ∉ msgs) :
+    msgQueueLoop (pump qf parse msgs) = (msgs.flatMap (bodyItems parse), false) := by
+  induction msgs with
+  | nil => simp [pump, msgQueueLoop]
+  | cons m r ih =>
+    have hr : WsMsg.fail ∉ r := fun h => hnf (by simp [h])
+    have hm : m ≠ .fail := fun h => hnf (by simp [h])
+    cases m with
+    | fail => exact absurd rfl hm
+    | binary b => simp only [pump, msgQueueLoop_items_append, ih hr, List.flatMap_cons]
+    | other => simp only [pump, msgQueueLoop_items_append, ih hr, List.flatMap_cons]
+
+/-- **a failing websocket loses nothing that had arrived** (client transport): the frames of every
+message received before the failure are dispatched first, then the transport error ends the loop;
+whatever the websocket would have produced afterwards is never looked at. -/
+theorem c04_ws_failure_after_messages {β : Type} (parse : Bytes → List β) (pre post : List WsMsg)
+    (hnf : WsMsg.fail ∉ pre) :
+    msgQueueLoop (pump true parse (pre ++ .fail :: post)) = (pre.flatMap (bodyItems parse), true) := by
+  induction pre with
+  | nil => simp [pump, msgQueueLoop]
+  | cons m r ih =>
+    have hr : WsMsg.fail ∉ r := fun h => hnf (by simp [h])
+    have hm : m ≠ .fail := fun h => hnf (by simp [h])
+    cases m with
+    | fail => exact absurd rfl hm
+    | binary b => simp only [List.cons_append, pump, msgQueueLoop_items_append, ih hr, List.flatMap_cons]
+    | other => simp only [List.cons_append, pump, msgQueueLoop_items_append, ih hr, List.flatMap_cons]
+
 /-- non-vacuity: two frames, the second arriving in the same read as the end of the first and
 followed at once by the end of the stream -/
 example : tcpLoop (fun b => [b]) [] ([[0, 0, 1, 7, 0], [0, 2, 8, 9]].map .data ++ .eof :: [.data [1]]) =
